@@ -109,10 +109,15 @@ func checkC13(e *Engine, r *Report) {
 		"R12 rollback (topology-aware Reconfigure): after the first change of policy state every error exit restores the saved policy, with one reasoned exception whose preconditions are checked; the resource manager re-applies the previous configuration on failure and records the new one only on success",
 		"R1 failure is reported (balloons): a setConfig error is returned by Reconfigure, so the resource manager reverts",
 		"R1 changed resources are pushed (shared with C05); R2 stopped containers are not re-admitted (shared with C09)",
+		"R14b propagated failures (resource manager and policy front-end): every call whose failure made its caller fail on the reviewed tree still does (frozen table of caller/callee pairs)",
 	}
 	r.NotDecided = []string{"that two futures are identical after a rejected update (differential, value-level)", "invariants under the new configuration (C01-C04 value parts)",
 		"topology-aware idempotence (an unchanged configuration is re-applied by rebuilding and re-instating every grant; equality of the result is value-level)"}
 	r.Assumptions = []string{"balloons: the resource manager's re-application of the previous configuration restores p.allowed/p.reserved changed by a rejected setConfig (demonstrated in round 0, DESIGN.md section 4 C13)"}
+
+	// a rejected update is seen as rejected: the failures that made the resource manager / policy front-end fail on the
+	// reviewed tree still do (R14b, frozen pairs)
+	checkErrorPropagation(e, r, "R1 failure is reported", pkgRM, pkgPolicy)
 
 	// ------------------------------------------------------------- A: balloons short-circuit
 	blReconf := r.Anchor(pkgBL, "balloons.Reconfigure")
@@ -207,6 +212,59 @@ func checkC13(e *Engine, r *Report) {
 			}})
 			r.Check("R1:bl-success-installs", "R12 rollback", "every successful setConfig(options) has installed those options as the ones in force", e.Pos(setConfig.Pos()), setConfig, p == nil, e.pathString(p), true)
 		}
+	}
+
+	// ------------------------------------------------------------- F: the states re-admission goes by are recorded
+	// Reconfiguration (and Synchronize) re-admit exactly the containers recorded as created or running: the handlers must
+	// record those states on their success paths
+	for _, t := range []struct{ handler, state string }{{"nriPlugin.CreateContainer", "ContainerStateCreated"}, {"nriPlugin.StartContainer", "ContainerStateRunning"}} {
+		fn := r.Anchor(pkgRM, t.handler)
+		k, _ := e.TypesPkg(pkgCA).Scope().Lookup(t.state).(*types.Const)
+		if fn == nil || k == nil {
+			if fn != nil {
+				r.Undecided("R6:lifecycle-state-recorded@"+t.handler, "R2 re-admission", "constant "+t.state+" exists", "-", nil, "not found")
+			}
+			continue
+		}
+		var lookedUp []ssa.Value // the cached container of the event (InsertContainer / LookupContainer result)
+		AllInstrs(fn, func(in ssa.Instruction) {
+			if c, ok := in.(ssa.CallInstruction); ok && callObj(c.Common()) != nil && (callObj(c.Common()).Name() == "InsertContainer" || callObj(c.Common()).Name() == "LookupContainer") && c.Value() != nil && c.Value().Referrers() != nil {
+				for _, ref := range *c.Value().Referrers() {
+					if ex, ok := ref.(*ssa.Extract); ok && ex.Index == 0 {
+						lookedUp = append(lookedUp, ex)
+					}
+				}
+			}
+		})
+		records := func(in ssa.Instruction) bool {
+			c, ok := in.(ssa.CallInstruction)
+			if !ok || callObj(c.Common()) == nil || callObj(c.Common()).Name() != "UpdateState" {
+				return false
+			}
+			a := callArgs(c)
+			if len(a) != 2 || !isConstEq(a[1], k) {
+				return false
+			}
+			for _, lu := range lookedUp {
+				if unspill(a[0]) == lu {
+					return true
+				}
+			}
+			return false
+		}
+		found := func(cond ssa.Value) (bool, bool) { // the container is known
+			if ex, ok := unspill(cond).(*ssa.Extract); ok && ex.Index == 1 {
+				if c, ok := ex.Tuple.(ssa.CallInstruction); ok && callObj(c.Common()) != nil && callObj(c.Common()).Name() == "LookupContainer" {
+					return true, true
+				}
+			}
+			return false, false
+		}
+		p := FindPath(PathQuery{Fn: fn, Assume: found, Block: records, Target: func(in ssa.Instruction) bool {
+			ret, ok := in.(*ssa.Return)
+			return ok && e.maySucceed(ret)
+		}})
+		r.Check("R6:lifecycle-state-recorded@"+t.handler, "R2 re-admission", "a successful "+strings.TrimPrefix(t.handler, "nriPlugin.")+" of a known container records it as "+strings.TrimPrefix(t.state, "ContainerState")+" (the state re-admission after a configuration update goes by)", e.Pos(fn.Pos()), fn, p == nil && len(lookedUp) > 0, e.pathString(p), true)
 	}
 
 	// ------------------------------------------------------------- B: faithful clones
